@@ -105,14 +105,21 @@ def gen_bound(rep, u, fname="ini_buf_gen", buf="buf", size="buf_size"):
         r, path = pe.reach_stmt(fn, head, body, bind, first[0], first[2])
         cases += 1
         fits = o + d + pend <= cap
-        if r == "unsure":
+        # the single-byte stores that follow: each is reached with the offset advanced by what was written before it
+        st_sorted = sorted(st, key=lambda w: (-w[0], w[1]))
+        st_reach = [pe.reach_stmt(fn, head, body, bind, w[0], w[2])[0] for w in st_sorted]
+        if r == "unsure" or "unsure" in st_reach:
             undec = "a guard could not be evaluated with %s=%d %s=%d %s=%d" % (off, o, lenk, d, size, cap)
         elif r == "sure" and not fits:
             bad = bad or "with %s=%d, %s=%d and %s=%d the memcpy at line %s is reached: %d bytes are written at offset %d of a %d-byte buffer" % (
                 off, o, lenk, d, size, cap, mc[0][2].get("ln"), d + pend, o, cap)
-        elif r == "no" and fits:
+        elif any(sr == "sure" and o + (d if r == "sure" else 0) + k + 1 > cap for k, sr in enumerate(st_reach)):
+            k = next(k for k, sr in enumerate(st_reach) if sr == "sure" and o + (d if r == "sure" else 0) + k + 1 > cap)
+            bad = bad or "with %s=%d, %s=%d and %s=%d the store at line %s is reached without a room check: byte %d of a %d-byte buffer is written" % (
+                off, o, lenk, d, size, cap, st_sorted[k][2].get("ln"), o + (d if r == "sure" else 0) + k, cap)
+        elif r == "no" and fits and all(sr == "no" for sr in st_reach):
             # refusing although it fits: not a memory-safety violation, but the generator then fails on an exact-size buffer
-            if o + d + pend <= cap and bad is None and o == 0 and cap == d + pend:
+            if bad is None and o == 0 and cap == d + pend:
                 bad = "an exactly fitting buffer (%d bytes) is refused" % cap
     # the terminator stores follow the memcpy without another guard: they are covered by `pend` in the guard above
     n += 1
